@@ -300,6 +300,9 @@ func InitProtect(init *InitSegment, key, iv []byte, scheme string, kid UUID, pss
 	if len(stsd.Children) != 1 {
 		return nil, fmt.Errorf("only one stsd child supported")
 	}
+	if len(kid) != 16 {
+		return nil, fmt.Errorf("kid is %d bytes instead of 16", len(kid))
+	}
 
 	if len(iv) == 8 {
 		// Convert to 16 bytes
